@@ -236,6 +236,11 @@ func (a *BoolArg) Parse() error {
 	if e != nil {
 		return e
 	}
+	// RFC 6020; Sec 12: boolean-arg = true-keyword / false-keyword.
+	// ParseBool also takes 1, t, T, TRUE, True, 0, f, F, FALSE, False.
+	if a.arg != "true" && a.arg != "false" {
+		return errors.New("invalid boolean argument: " + string(a.arg))
+	}
 	a.b = b
 	return nil
 }
